@@ -64,6 +64,7 @@ CASE_TIMEOUT = 900
 SHARD_TIMEOUT = {'quick': 1500, 'thorough': 7200}
 
 N_CASES = {'quick': 288, 'thorough': 1200}
+N_HISTORIES = {'quick': 80, 'thorough': 480}
 RT_ENGINE = 1e-10
 RT_RUN = 1e-12
 RT_REF_F = 1e-9
@@ -86,6 +87,17 @@ def cases(seed, tier):
             k += 1
     for name in DIRECTED:
         out.append({'seed': seed, 'i': 0, 'mode': 'directed', 'name': name, 'tier': tier})
+    # histories on ONE object: seeded operation sequences + scripted ones (bootstrap, then a likelihood call)
+    for i in range(N_HISTORIES[tier]):
+        out.append({'seed': seed, 'i': i, 'mode': 'history', 'tier': tier})
+    k = 0
+    for kind in ('logit', 'panel'):
+        for weight in (False, True):
+            for script in (['bootstrap', 'like'], ['deriv', 'bootstrap', 'deriv'], ['like', 'estimate', 'like_scaled'],
+                           ['deriv', 'simulate', 'like'], ['set_threads_down', 'simulate', 'like'], ['quick_estimate', 'deriv_scaled']):
+                out.append({'seed': seed, 'i': 900000 + k, 'mode': 'history', 'tier': tier, 'kind': kind, 'weight': weight,
+                            'script': script})
+                k += 1
     return out
 
 
@@ -210,9 +222,9 @@ def _frame(spec):
     return df
 
 
-def _build(spec, threads, route='param', formulas='full'):
-    """fresh expression objects + fresh Database + fresh BIOGEME. formulas: 'full' (log-like and weight as the
-    user gives them) | 'loglike_only'"""
+def _build(spec, threads, route='param', formulas='full', params=None, database=None):
+    """fresh expression objects + fresh Database (unless one is given) + fresh BIOGEME. formulas: 'full' (log-like
+    and weight as the user gives them) | 'loglike_only'; params: {name: (value, section or None)}"""
     from ..gen import build
     import biogeme.database as db
     from biogeme.biogeme import BIOGEME
@@ -228,11 +240,16 @@ def _build(spec, threads, route='param', formulas='full'):
         f = {spec['ll_key']: ll, spec['w_key']: wexpr}
         if spec.get('weight_first'):
             f = {spec['w_key']: wexpr, spec['ll_key']: ll}
-    d = db.Database('c04', _frame(spec))
-    if spec['panel']:
-        d.panel(spec['panel'])
+    if database is None:
+        d = db.Database('c04', _frame(spec))
+        if spec['panel']:
+            d.panel(spec['panel'])
+    else:
+        d = database
     p = Parameters()
     p.set_value('save_iterations', False)
+    for nm_, (val_, sec_) in (params or {}).items():
+        p.set_value(nm_, val_, sec_)
     kw = {}
     if route == 'param':
         p.set_value('number_of_threads', int(threads), 'MultiThreading')
@@ -373,6 +390,8 @@ def run_case(case):
         return rec.out()
     if case['mode'] == 'directed':
         _directed(case, rec)
+    elif case['mode'] == 'history':
+        _history_case(case, rec)
     else:
         _model_case(case, rec)
     return rec.out()
@@ -829,6 +848,316 @@ def _directed(case, rec):
 
 
 # --------------------------------------------------------------------------------------------
+# histories on one object
+
+
+HIST_OPS = ['like', 'like_scaled', 'deriv', 'deriv_scaled', 'deriv_nohess', 'simulate', 'set_threads', 'set_threads_alias',
+            'estimate', 'quick_estimate', 'bootstrap', 'validate', 'dbop']
+HIST_WEIGHTS = [4, 3, 4, 3, 2, 4, 3, 1, 1, 1, 2, 0.4, 1.2]
+
+
+def _force_weight(spec, want, r):
+    n = len(next(iter(spec['data'].values())))
+    if not want:
+        spec['weight_ast'] = None
+        spec['weight_kind'] = 'none'
+        spec['data'] = {k: v for k, v in spec['data'].items() if k != 'WGT'}
+    elif spec['weight_ast'] is None:
+        if spec['panel']:
+            spec['weight_ast'] = ['num', 2.5]
+            spec['weight_kind'] = 'const'
+        else:
+            spec['data'] = dict(spec['data'], WGT=[round(r.uniform(0.2, 3.0), 3) for _ in range(n)])
+            spec['weight_ast'] = ['var', 'WGT']
+            spec['weight_kind'] = 'column'
+    spec['bare'] = spec['weight_ast'] is None and spec.get('bare', False)
+
+
+def _history_case(case, rec):
+    """One BIOGEME object taken through a sequence of public operations; after every likelihood call the value is
+    judged against (a) the weighted sum of what simulate reports on a fresh single-thread object built on the data
+    set in force, (b) that fresh object's own likelihood / derivatives, (c) the reference evaluator."""
+    from ..gen import c04_models as gm
+    from ..gen import build
+    import biogeme.expressions as ex
+
+    tier = case.get('tier', 'quick')
+    r = random.Random(f'c04hist/{case["seed"]}/{case["i"]}')
+    kind = case.get('kind') or r.choice(['logit', 'logit', 'panel'])
+    n = r.choice([4, 5, 6, 7, 9, 13, 17, 23, 40, 60])
+    spec = gm.make(case['seed'], 500000 + case['i'], tier, kind=kind, nrows=n)
+    _force_weight(spec, case['weight'] if 'weight' in case else (r.random() < 0.5), r)
+    us = gm.units(spec)
+    U = len(us)
+    tpool = sorted({1, 2, 3, 5, 8, 16, 64, U + 1, max(1, U - 1), 4 * U})
+    T0 = r.choice(tpool + [0])
+    if 'script' in case and 'set_threads_down' in case['script']:
+        T0 = r.choice([8, 16, 0])
+    params = {'max_iterations': (r.randint(1, 4), 'SimpleBounds'), 'bootstrap_samples': (r.randint(1, 3), None),
+              'generate_html': (False, None), 'generate_pickle': (False, None)}
+    state = {'spec': spec, 'version': 0}
+    history = []
+    wit = {'spec': spec, 'threads_at_construction': T0, 'parameters': {k: v[0] for k, v in params.items()}, 'history': history}
+
+    def viol(mech, msg, **kw):
+        w = dict(wit)
+        w['history'] = list(history)
+        if rec.cov.get('violations_raw', 0):
+            w['spec'] = '(see the first violation of this case)'
+        w.update(kw)
+        rec.violation('C04/' + mech, msg, w)
+
+    try:
+        bg, d = _build(spec, T0, 'param', params=params)
+    except BaseException as e:
+        viol(f'history-construction-raises-{type(e).__name__}', str(e)[:400])
+        return
+    state['bg'], state['d'] = bg, d
+    names = list(bg.free_beta_names)
+    if not names:
+        rec.c('rejected_no_free_parameter')
+        return
+    rec.c('history_family_' + kind)
+    rec.c('history_weight_' + ('yes' if spec['weight_ast'] is not None else 'no'))
+    pts = [dict(spec['point'])]
+    used = set()
+    pts.append({k: round(v + r.uniform(-0.4, 0.4), 3) for k, v in spec['point'].items()})
+    fresh_cache = {}
+
+    def fresh(pt):
+        """expected values at the point on the data set in force: independent reference + fresh single-thread object"""
+        sp = state['spec']
+        key = (state['version'], tuple(sorted(pt.items())))
+        if key in fresh_cache:
+            return fresh_cache[key]
+        bv = {k: v[0] for k, v in sp['betas'].items()}
+        bv.update(pt)
+        ref = reference(sp, bv, names)
+        out = None
+        if ref['ok']:
+            fb, _ = _build(sp, 1, 'param')
+            x = [float(pt[nm]) for nm in names]
+            ev = _evaluate(fb, x)
+            sim_spec_ok = not (sp['panel'] and sp['weight_ast'] is not None)
+            sb = fb if sim_spec_ok else _build(sp, 1, 'param', formulas='loglike_only')[0]
+            sim = sb.simulate({nm: pt[nm] for nm in names})
+            llname = 'log_like' if (sp.get('bare') and sp['weight_ast'] is None) else sp['ll_key']
+            sl = sim[llname].to_numpy(dtype=float)
+            sw = sim[sp['w_key']].to_numpy(dtype=float) if (sp['weight_ast'] is not None and sim_spec_ok) else ref['w']
+            out = {'ref': ref, 'fresh': ev, 'sim_sum': math.fsum((sw * sl).tolist()), 'sim_ll': sl, 'U': ref['U'], 'x': x,
+                   'J': _Judge(rec, sp, ref, x, names)}
+            J = out['J']
+            # the expectation itself must be coherent before it judges anything
+            J.cmp('f', ev['f'], ref['F'], RT_REF_F, 'fresh-single-thread-value-differs-from-reference-weighted-sum', 'fresh object vs reference')
+            J.cmp('f', out['sim_sum'], ref['F'], RT_REF_F, 'weighted-sum-of-simulated-differs-from-reference-weighted-sum', 'fresh simulate sum vs reference')
+        fresh_cache[key] = out
+        return out
+
+    def judge_call(op, pt, got, scaled, which):
+        exp = fresh(pt)
+        if exp is None:
+            rec.c('history_point_rejected_by_reference')
+            return
+        J = exp['J']
+        div = float(exp['U']) if scaled else 1.0
+        hw = {'history': list(history), 'after': op, 'scaled': scaled, 'x': exp['x']}
+        rec.c('history_calls_judged')
+        if any(h in ('bootstrap',) for h in history[:-1]):
+            rec.c('history_calls_judged_after_bootstrap')
+        if any(h in ('estimate', 'quick_estimate') for h in history[:-1]):
+            rec.c('history_calls_judged_after_estimation')
+        if 'simulate' in history[:-1]:
+            rec.c('history_calls_judged_after_simulate')
+        if any(h.startswith('set_threads') for h in history[:-1]):
+            rec.c('history_calls_judged_after_thread_change')
+        J.cmp('f', got['f'], exp['sim_sum'] / div, RT_ENGINE, 'history-value-differs-from-weighted-sum-of-simulated',
+              f'{op} after {history[:-1]}: value vs weighted sum of simulate (data set in force)', div=div, **hw)
+        J.cmp('f', got['f'], exp['ref']['F'] / div, RT_REF_F, 'history-value-differs-from-reference-weighted-sum',
+              f'{op} after {history[:-1]}: value vs reference', div=div, **hw)
+        J.cmp('f', got['f'], exp['fresh']['f'] / div, RT_ENGINE, 'history-value-differs-from-fresh-single-thread-object',
+              f'{op} after {history[:-1]}: value vs fresh single-thread object', div=div, **hw)
+        for k_, what in (('g', 'g'), ('H', 'H'), ('B', 'B')):
+            if k_ in which:
+                J.cmp(what, got[k_], exp['fresh'][k_] / div, RT_ENGINE, f'history-{_nm(k_)}-differs-from-fresh-single-thread-object',
+                      f'{op} after {history[:-1]}: {_nm(k_)} vs fresh single-thread object', div=div, **hw)
+
+    def pick_point():
+        return r.choice(pts)
+
+    def do_like(scaled):
+        pt = pick_point()
+        x = [float(pt[nm]) for nm in names]
+        f = float(state['bg'].calculate_likelihood(x, scaled=scaled))
+        judge_call(history[-1], pt, {'f': f}, scaled, '')
+
+    def do_deriv(scaled, hessian=True, bhhh=True):
+        pt = pick_point()
+        x = [float(pt[nm]) for nm in names]
+        o = state['bg'].calculate_likelihood_and_derivatives(x, scaled=scaled, hessian=hessian, bhhh=bhhh)
+        got = {'f': float(o.function), 'g': np.array(o.gradient, dtype=float)}
+        which = 'g'
+        if hessian:
+            got['H'] = np.array(o.hessian, dtype=float)
+            which += 'H'
+        if bhhh:
+            got['B'] = np.array(o.bhhh, dtype=float)
+            which += 'B'
+        judge_call(history[-1], pt, got, scaled, which)
+
+    def do_simulate():
+        sp = state['spec']
+        if sp['panel'] and sp['weight_ast'] is not None:
+            rec.c('history_simulate_skipped_panel_constant_weight')
+            return
+        pt = pick_point()
+        sim = state['bg'].simulate({nm: pt[nm] for nm in names})
+        exp = fresh(pt)
+        if exp is None:
+            return
+        llname = 'log_like' if (sp.get('bare') and sp['weight_ast'] is None) else sp['ll_key']
+        rec.ev()
+        sl = sim[llname].to_numpy(dtype=float)
+        if sl.shape != exp['sim_ll'].shape or not np.all(np.abs(sl - exp['sim_ll']) <= RT_ENGINE * np.abs(exp['sim_ll']) + ATOL):
+            viol('history-simulate-differs-from-fresh-single-thread-object', f'simulate after {history[:-1]} differs from a fresh object',
+                 observed=sl[:20], expected=exp['sim_ll'][:20])
+
+    def do_threads(alias):
+        t = r.choice(tpool + [0])
+        if 'script' in case:
+            t = 1
+        history[-1] = f'{history[-1]}={t}'
+        if alias:
+            state['bg'].numberOfThreads = t
+        else:
+            state['bg'].number_of_threads = t
+
+    def do_estimate(which):
+        b = state['bg']
+        try:
+            if which == 'estimate':
+                res_ = b.estimate()
+            elif which == 'quick_estimate':
+                res_ = b.quick_estimate()
+            else:
+                res_ = b.estimate(run_bootstrap=True)
+        except BaseException as e:  # estimation itself is not the subject here: recorded, history stops
+            rec.c(f'history_{which}_raised_{type(e).__name__}')
+            return False
+        state['results'] = res_
+        est = res_.get_beta_values()
+        pt = {nm: float(est[nm]) for nm in names if nm in est}
+        if len(pt) == len(names) and all(math.isfinite(v) and abs(v) < 50 for v in pt.values()):
+            pts.append(pt)
+            exp = fresh(pt)
+            if exp is not None:
+                # the final log likelihood the estimation reports is a log likelihood reported for the data set
+                rec.c('history_estimation_final_loglikelihood_judged')
+                exp['J'].cmp('f', float(res_.data.logLike), exp['sim_sum'], RT_ENGINE, 'history-estimation-final-loglikelihood-differs-from-weighted-sum-of-simulated',
+                             f'{which}: reported final log likelihood vs weighted sum of simulate at the estimates', history=list(history))
+        return True
+
+    def do_validate():
+        sp = state['spec']
+        if sp['panel'] or U < 8:
+            rec.c('history_validate_skipped')
+            return True
+        if 'results' not in state:
+            history[-1] = 'estimate'
+            if not do_estimate('estimate'):
+                return False
+            history.append('validate')
+        try:
+            slices = state['d'].split(slices=2)
+            state['bg'].validate(state['results'], slices)
+        except BaseException as e:
+            rec.c(f'history_validate_raised_{type(e).__name__}')
+            return False
+        return True
+
+    def do_dbop():
+        sp = state['spec']
+        d_ = state['d']
+        cols = sorted(c for c in sp['data'] if c.startswith(('t_', 'x_')))
+        op = r.choice(['scale', 'remove', 'add_column'])
+        if op == 'scale':
+            c = r.choice(cols)
+            sc = r.choice([0.5, 2.0, 0.1])
+            d_.scale_column(c, sc)
+            history[-1] = f'dbop:scale_column({c},{sc})+new_object'
+        elif op == 'remove':
+            c = r.choice([c for c in cols if c.startswith('x_')])
+            vals = sorted(sp['data'][c])
+            thr = vals[max(1, (3 * len(vals)) // 4) - 1] if len(vals) > 2 else max(vals) + 1
+            d_.remove(ex.Variable(c) > thr)
+            history[-1] = f'dbop:remove({c}>{thr})+new_object'
+        else:
+            c = r.choice(cols)
+            d_.add_column(ex.Variable(c) * 2 + 1, 'NEWCOL%d' % state['version'])
+            history[-1] = f'dbop:add_column(2*{c}+1)+new_object'
+        if d_.is_panel():
+            d_.build_panel_map()
+        df = d_.data
+        if len(df) == 0:
+            rec.c('history_dbop_emptied_table')
+            return False
+        sp2 = dict(sp)
+        sp2['data'] = {c: [float(v) for v in df[c].tolist()] for c in df.columns}
+        sp2['index'] = None
+        state['spec'] = sp2
+        state['version'] += 1
+        T = r.choice(tpool + [0])
+        state['bg'], _ = _build(sp2, T, 'param', params=params, database=d_)
+        state.pop('results', None)
+        return True
+
+    if 'script' in case:
+        ops = list(case['script'])
+    else:
+        L = r.randint(5, 9) if tier == 'quick' else r.randint(6, 13)
+        ops = r.choices(HIST_OPS, weights=HIST_WEIGHTS, k=L)
+        ops += [r.choice(['like', 'like_scaled']), r.choice(['deriv', 'deriv_scaled'])]
+    rec.key(['history', spec['ast'], spec['weight_ast'], spec['data'], ops, T0])
+    rec.sample({'history': ops, 'family': kind, 'units': U, 'threads_at_construction': T0, 'weight': spec['weight_kind']})
+    for op in ops:
+        history.append(op)
+        rec.c('history_op_' + op.split('=')[0])
+        try:
+            if op == 'like':
+                do_like(False)
+            elif op == 'like_scaled':
+                do_like(True)
+            elif op == 'deriv':
+                do_deriv(False)
+            elif op == 'deriv_scaled':
+                do_deriv(True)
+            elif op == 'deriv_nohess':
+                do_deriv(False, hessian=False, bhhh=r.random() < 0.5)
+            elif op == 'simulate':
+                do_simulate()
+            elif op in ('set_threads', 'set_threads_down'):
+                do_threads(False)
+            elif op == 'set_threads_alias':
+                do_threads(True)
+            elif op in ('estimate', 'quick_estimate', 'bootstrap'):
+                if not do_estimate(op):
+                    break
+            elif op == 'validate':
+                if not do_validate():
+                    break
+            elif op == 'dbop':
+                if not do_dbop():
+                    break
+            else:
+                raise ValueError(op)
+        except BaseException as e:  # noqa
+            if isinstance(e, ValueError) and str(e) == op:
+                raise
+            viol(f'history-{op.split("=")[0]}-raises-{type(e).__name__}', f'{op} after {history[:-1]} raised {type(e).__name__}: {str(e)[:400]}')
+            break
+    rec.c('history_cases_run')
+
+
+# --------------------------------------------------------------------------------------------
 # coverage requirements
 
 
@@ -845,6 +1174,12 @@ def finalize(cov, tier):
     for t in (1, 2, 3, 5, 7, 8, 16, 64):
         if cov.get(f'threads_{t}', 0) == 0:
             out.append(f'thread count {t} never run')
+    for k in ('history_cases_run', 'history_calls_judged', 'history_calls_judged_after_bootstrap', 'history_calls_judged_after_estimation',
+              'history_calls_judged_after_simulate', 'history_calls_judged_after_thread_change', 'history_family_logit',
+              'history_family_panel', 'history_weight_yes', 'history_weight_no', 'history_op_dbop', 'history_op_bootstrap',
+              'history_op_quick_estimate', 'history_estimation_final_loglikelihood_judged'):
+        if cov.get(k, 0) == 0:
+            out.append(f'history family: never observed: {k}')
     for d in DIRECTED:
         if cov.get('directed_' + d, 0) == 0:
             out.append(f'directed case not run: {d}')
